@@ -1,0 +1,9 @@
+//go:build verif
+
+package dir
+
+// VerifDecodeDirEnt decodes one 128-byte directory entry.
+func VerifDecodeDirEnt(d []byte) (inum uint64, name string) {
+	de := decodeDirEnt(d)
+	return uint64(de.inum), de.name
+}
